@@ -101,6 +101,11 @@ theorem C17_pem_file_roundtrip (hash c : Bytes) (k r : Option Bytes) :
       ([⟨Pem.tCertificate, c⟩] ++ k.toList.map (fun x => ⟨Pem.tPrivateKey, x⟩) ++ r.toList.map (fun x => ⟨Pem.tRequest, x⟩), false) :=
   Pem.readAll_exportFile hash c k r
 
+/-- **the configuration hash survives the file**: what `importCertConfigFile` reads from the text `exportPemFile` wrote
+    is exactly the hash that was written (so an unchanged configuration never looks changed because of the file layer) -/
+theorem C17_stored_hash_roundtrip (hash : Bytes) (c k r : Option Bytes) :
+    Pem.readHash (Pem.exportFile hash c k r) = some hash := Pem.readHash_exportFile hash c k r
+
 /-- non-vacuity / sanity: a concrete file with all three blocks -/
 example : (Pem.readAll 5 (Pem.exportFile [1, 2, 3] (some [0x30, 0]) (some [0x30, 3, 2, 1, 0]) (some [0x30, 0]))).1.length = 3 := by
   rw [C17_pem_file_roundtrip]; rfl
